@@ -33,6 +33,12 @@ pub enum Start {
     /// version specific entry (Ipv4Slice::from_slice etc.)
     Ipv4,
     Ipv6,
+    /// a single transport layer (UDP 17, TCP 6, ICMP 1, ICMPv6 58) at offset 0
+    Transport(u8),
+    /// an extension header chain announced by the given number at offset 0
+    Ext(u8),
+    /// ARP at offset 0
+    Arp,
 }
 
 /// one admissible (truthful) error report
@@ -597,7 +603,7 @@ impl<'a> Dec<'a> {
                             Kind::Ipv4,
                             o,
                             &[Lay::IpHeader],
-                            format!("ip.UnsupportedIpVersion({})", v),
+                            format!("ip.BadVersion({})", v),
                         );
                     }
                 }
@@ -625,7 +631,7 @@ impl<'a> Dec<'a> {
                         Kind::Ipv4,
                         o,
                         stop_hdr,
-                        format!("ipv4.UnexpectedVersion({})", v),
+                        format!("ip.BadVersion({})", v),
                     );
                     bad_content = true;
                 }
@@ -635,9 +641,9 @@ impl<'a> Dec<'a> {
                         o,
                         stop_hdr,
                         if dispatch {
-                            format!("ip.Ipv4HeaderLengthSmallerThanHeader({})", ihl)
+                            format!("ip.IhlTooSmall({})", ihl)
                         } else {
-                            format!("ipv4.HeaderLengthSmallerThanHeader({})", ihl)
+                            format!("ip.IhlTooSmall({})", ihl)
                         },
                     );
                     bad_content = true;
@@ -657,7 +663,7 @@ impl<'a> Dec<'a> {
         let ihl = (b[o] & 0x0f) as usize;
         let mut bad = false;
         if v != 4 {
-            self.fault_content(Kind::Ipv4, o, stop_hdr, format!("ipv4.UnexpectedVersion({})", v));
+            self.fault_content(Kind::Ipv4, o, stop_hdr, format!("ip.BadVersion({})", v));
             bad = true;
         }
         if ihl < 5 {
@@ -666,9 +672,9 @@ impl<'a> Dec<'a> {
                 o,
                 stop_hdr,
                 if dispatch {
-                    format!("ip.Ipv4HeaderLengthSmallerThanHeader({})", ihl)
+                    format!("ip.IhlTooSmall({})", ihl)
                 } else {
-                    format!("ipv4.HeaderLengthSmallerThanHeader({})", ihl)
+                    format!("ip.IhlTooSmall({})", ihl)
                 },
             );
             bad = true;
@@ -786,7 +792,7 @@ impl<'a> Dec<'a> {
     }
 
     /// authentication header at `o`; pushes an ExtAh layer; returns (next header, length)
-    fn ah(&mut self, o: usize, v4: bool) -> Option<(u8, usize)> {
+    fn ah(&mut self, o: usize, _v4: bool) -> Option<(u8, usize)> {
         let e = self.end();
         let a = e - o;
         let b = self.b;
@@ -799,11 +805,7 @@ impl<'a> Dec<'a> {
                         Kind::ExtAh,
                         o,
                         lays,
-                        if v4 {
-                            "ipv4exts.ZeroPayloadLen".to_string()
-                        } else {
-                            "ipv6exts.IpAuth(ZeroPayloadLen)".to_string()
-                        },
+                        "auth.ZeroPayloadLen".to_string(),
                     );
                 } else {
                     req.push(4 * (b[o + 1] as usize + 2));
@@ -818,11 +820,7 @@ impl<'a> Dec<'a> {
                 Kind::ExtAh,
                 o,
                 lays,
-                if v4 {
-                    "ipv4exts.ZeroPayloadLen".to_string()
-                } else {
-                    "ipv6exts.IpAuth(ZeroPayloadLen)".to_string()
-                },
+                "auth.ZeroPayloadLen".to_string(),
             );
             return None;
         }
@@ -853,7 +851,7 @@ impl<'a> Dec<'a> {
                     Kind::Ipv6,
                     o,
                     stop_hdr,
-                    format!("ipv6.UnexpectedVersion({})", b[o] >> 4),
+                    format!("ip.BadVersion({})", b[o] >> 4),
                 );
             }
             self.fault_len(Kind::Ipv6, o, hdr_lay, stop_hdr, &[40]);
@@ -864,7 +862,7 @@ impl<'a> Dec<'a> {
                 Kind::Ipv6,
                 o,
                 stop_hdr,
-                format!("ipv6.UnexpectedVersion({})", b[o] >> 4),
+                format!("ip.BadVersion({})", b[o] >> 4),
             );
             return;
         }
@@ -1325,6 +1323,11 @@ pub fn decode(bytes: &[u8], start: Start, mode: Mode, ext_mode: ExtMode) -> RDec
         Start::Ip => d.ip(0, Start::Ip),
         Start::Ipv4 => d.ip(0, Start::Ipv4),
         Start::Ipv6 => d.ip(0, Start::Ipv6),
+        Start::Transport(n) => d.transport(n, 0),
+        Start::Ext(n) => {
+            let _ = d.ipv6_exts(n, 0);
+        }
+        Start::Arp => d.arp(0),
     }
     let fault_in_first = match (&d.fault, start) {
         (Some(f), Start::Eth) => f.kind == Kind::Eth,
@@ -1333,6 +1336,7 @@ pub fn decode(bytes: &[u8], start: Start, mode: Mode, ext_mode: ExtMode) -> RDec
         (Some(f), Start::Ip | Start::Ipv4 | Start::Ipv6) => {
             (f.kind == Kind::Ipv4 || f.kind == Kind::Ipv6) && !d.layers.iter().any(|l| l.kind == f.kind)
         }
+        (Some(f), _) => f.off == 0,
         (None, _) => false,
     };
     RDecoded {
